@@ -570,7 +570,7 @@ def symcont_method(ex, recv, name, args, kwargs, node):
                     recv.popped -= 1
                 ex.push_undo(un)
                 return v
-            if not args:
+            if not args or list(args) == [-1]:
                 if recv.suffix:
                     ex.record_write(recv, 'pop', None, None, kind='mutate')
                     v = recv.suffix.pop()
